@@ -404,7 +404,7 @@ pub trait MapValidVec<T: IsNone>: Vec1View<T> {
                 // pad with none when the series itself is shorter than kth + 1
                 return Box::new(
                     vec.into_iter()
-                        .chain(std::iter::repeat(T::none()))
+                        .chain(std::iter::repeat_with(T::none))
                         .take(kth + 1)
                         .to_trust(kth + 1),
                 );
